@@ -19,7 +19,7 @@ import (
 type caseSpec struct {
 	Phase string  `json:"phase"`
 	Nodes []*node `json:"nodes"`
-	RSeed uint64  `json:"rseed"`
+	RSeed uint64  `json:"rseed,string"`
 }
 
 type failure struct {
@@ -36,7 +36,6 @@ type env struct {
 	// observations
 	hashCollisions int // distinct values with equal Hash met by an oracle
 	wrappedValues  int
-	crossPairs     int
 }
 
 func newEnv(causal bool) *env {
@@ -427,23 +426,24 @@ func (e *env) checkGob(mode string, v tla.Value, others []tla.Value, canon strin
 
 // ---- phase "value": one value, several constructions -------------------------------------------------------------------
 
-func (e *env) builders(rng uint64, cross float64) []*builder {
+func (e *env) builders(rng uint64) []*builder {
 	wrap := 0.0
 	if e.causal {
 		wrap = 0.12
 	}
 	return []*builder{
 		{rng: newRng(mix(rng, 1)), varied: false, recipes: e.recipes},
-		{rng: newRng(mix(rng, 2)), varied: true, cross: cross, wrap: wrap, gobp: 0.03, recipes: e.recipes},
-		{rng: newRng(mix(rng, 3)), varied: true, cross: cross, wrap: wrap * 2, gobp: 0.03, recipes: e.recipes},
+		{rng: newRng(mix(rng, 2)), varied: true, wrap: wrap, gobp: 0.01, recipes: e.recipes},
+		{rng: newRng(mix(rng, 3)), varied: true, wrap: wrap * 2, gobp: 0.01, recipes: e.recipes},
 	}
 }
 
 func (e *env) runValue(spec caseSpec) (fs []failure) {
 	n := spec.Nodes[0]
-	canon := n.canon()
+	canon := n.kcanon()    // Equal / Hash / gob / read-back: tuples and functions are distinct kinds
+	mathCanon := n.canon() // printed form: what the TLA+ expression denotes
 	rng := newRng(mix(spec.RSeed, 99))
-	bs := e.builders(spec.RSeed, 0.03)
+	bs := e.builders(spec.RSeed)
 	vals := make([]tla.Value, len(bs))
 	for i, b := range bs {
 		if pi := try(func() { vals[i] = b.build(n) }); pi != nil {
@@ -481,9 +481,6 @@ func (e *env) runValue(spec caseSpec) (fs []failure) {
 	allEqual := true
 	for i := range vals {
 		for j := i + 1; j < len(vals); j++ {
-			if bs[i].usedCross || bs[j].usedCross {
-				e.crossPairs++
-			}
 			if !e.comparePair(vals[i], vals[j], true, []int{0}, &fs) {
 				allEqual = false
 			}
@@ -500,8 +497,8 @@ func (e *env) runValue(spec caseSpec) (fs []failure) {
 		pc, err := parsePrinted(s)
 		if err != nil {
 			fs = append(fs, failure{Class: "string:not-in-printed-tla-sublanguage", Ops: []int{0}, Detail: fmt.Sprintf("String() = %s: %v", short(s), err)})
-		} else if pc != canon {
-			fs = append(fs, failure{Class: "string:denotes-other-value", Ops: []int{0}, Detail: fmt.Sprintf("String() = %s denotes %s, the value is %s", short(s), short(pc), short(canon))})
+		} else if pc != mathCanon {
+			fs = append(fs, failure{Class: "string:denotes-other-value", Ops: []int{0}, Detail: fmt.Sprintf("String() = %s denotes %s, the value is %s", short(s), short(pc), short(mathCanon))})
 		}
 	}
 	if len(fs) > 0 || !allEqual {
@@ -524,8 +521,9 @@ func (e *env) runValue(spec caseSpec) (fs []failure) {
 	}); pi != nil {
 		fs = append(fs, failure{Class: pi.class, Ops: []int{0}, Detail: "membership/lookup panicked: " + pi.msg})
 	}
-	// wire
-	for i, v := range vals {
+	// wire: one of the constructions, in one of the shapes the runtime uses (gob dominates the cost of a case)
+	{
+		i := rng.Intn(len(vals))
 		mode := gobModes[rng.Intn(len(gobModes))]
 		var others []tla.Value
 		for j := range vals {
@@ -533,7 +531,7 @@ func (e *env) runValue(spec caseSpec) (fs []failure) {
 				others = append(others, vals[j])
 			}
 		}
-		e.checkGob(mode, v, others, canon, &fs)
+		e.checkGob(mode, vals[i], others, canon, &fs)
 	}
 	return fs
 }
@@ -548,12 +546,12 @@ func (e *env) runPair(spec caseSpec) (fs []failure) {
 	vals := make([]tla.Value, len(spec.Nodes))
 	canons := make([]string, len(spec.Nodes))
 	for i, n := range spec.Nodes {
-		b := &builder{rng: newRng(mix(spec.RSeed, uint64(i))), varied: true, wrap: wrap, gobp: 0.02, recipes: e.recipes}
+		b := &builder{rng: newRng(mix(spec.RSeed, uint64(i))), varied: true, wrap: wrap, gobp: 0.004, recipes: e.recipes}
 		if pi := try(func() { vals[i] = b.build(n) }); pi != nil {
 			return append(fs, failure{Class: pi.class, Ops: []int{i}, Detail: fmt.Sprintf("building %s panicked: %s", short(n.render()), pi.msg)})
 		}
 		e.wrappedValues += b.wrapped
-		canons[i] = n.canon()
+		canons[i] = n.kcanon()
 	}
 	eq := map[[2]int]bool{}
 	okAll := true
@@ -598,7 +596,7 @@ func (e *env) runMap(spec caseSpec) (fs []failure) {
 	pool := spec.Nodes
 	canons := make([]string, len(pool))
 	for i, n := range pool {
-		canons[i] = n.canon()
+		canons[i] = n.kcanon()
 	}
 	mk := func(i int) (v tla.Value, pi *panicInfo) {
 		b := &builder{rng: newRng(rng.Uint64()), varied: true, recipes: e.recipes}
